@@ -123,6 +123,9 @@ func genC01(c *Cfg, emit func([]string)) {
 				r.sigs = append(r.sigs, s+"=n")
 			case "foreign":
 				r.sigs = append(r.sigs, fmt.Sprintf("%s=v.%s.{K9}.%s", s, kt, msg))
+			case "member":
+				// a genuine signature over this very request, but made by ANOTHER member of the list
+				r.sigs = append(r.sigs, fmt.Sprintf("%s=v.%s.%s.%s", s, kt, keys[(i+1)%len(keys)], msg))
 			case "othermsg":
 				r.sigs = append(r.sigs, fmt.Sprintf("%s=v.%s.%s.%sX", s, kt, keys[i], msg))
 			}
@@ -166,6 +169,22 @@ func genC01(c *Cfg, emit func([]string)) {
 					// multisig whose ACL reply carries key-change lists: a refused request must still write nothing
 					add(build(route, kt, 2, []string{s0, s1}, strings.Replace(aclOK(kt, 2, 0), ":100", ":10011", 1), false))
 				}
+			}
+		}
+	}
+	// one member's genuine signature also placed in other members' slots: each slot counts only for
+	// its own key
+	for _, kt := range kts {
+		for _, route := range routes {
+			for _, n := range []int{0, 1, 2} {
+				add(build(route, kt, 2, []string{"valid", "member"}, aclOK(kt, 2, n), false))
+				add(build(route, kt, 2, []string{"member", "valid"}, aclOK(kt, 2, n), false))
+				add(build(route, kt, 2, []string{"member", "blank"}, aclOK(kt, 2, n), false))
+			}
+			for _, n := range []int{0, 2, 3} {
+				add(build(route, kt, 3, []string{"valid", "member", "blank"}, aclOK(kt, 3, n), false))
+				add(build(route, kt, 3, []string{"blank", "valid", "member"}, aclOK(kt, 3, n), false))
+				add(build(route, kt, 3, []string{"member", "member", "member"}, aclOK(kt, 3, n), false))
 			}
 		}
 	}
